@@ -377,9 +377,6 @@ def run_obligation(ob, seed, tier):
 
     def run_path(ctx):
         P.reset()
-        P._DEF_CACHE.clear()
-        P._EXP_CACHE.clear()
-        P._LOG_CACHE.clear()
         from . import stubs
         stubs.reset()
         mk = Mk("sym", seed=seed, params=ob.params)
@@ -424,7 +421,7 @@ def run_obligation(ob, seed, tier):
                 if a.t and not a.isconst() or b.t and not b.isconst():
                     nontrivial_keys.add(key)
         out["goals"] += len(pairs)
-        leaf = [i for i, k in enumerate(P.TAB.kind) if k in ("real", "cplx") and P.TAB.names[i] in mk.inputs]
+        leaf = [i for i, k in enumerate(P.TAB.kind) if k in ("real", "cplx", "pos") and P.TAB.names[i] in mk.inputs]
         if not hyps:
             r, bad = D.q_id(pairs, dstats, timeout_ms=opts.get("solver_timeout_ms", 60000))
             if "Q-ID" not in out["procedure"]:
@@ -474,7 +471,7 @@ def run_obligation(ob, seed, tier):
             nm = P.TAB.names[sid]
             if P.TAB.kind[sid] == "cplx":
                 d[nm] = [v.real, v.imag]
-            elif P.TAB.kind[sid] == "real":
+            elif P.TAB.kind[sid] in ("real", "pos"):
                 d[nm] = float(v.real) if isinstance(v, complex) else float(v)
         return d
 
@@ -483,7 +480,8 @@ def run_obligation(ob, seed, tier):
             m = ctx.model()
         except sx.Inconclusive:
             return {}
-        return _model_by_name(sx.model_to_dict(m))
+        return {k: v for k, v in sx.model_to_dict(m).items()
+                if not (k.startswith("p") and "_" in k and k[1:k.index("_")].isdigit())}
 
     try:
         results, st = sx.explore(
